@@ -593,6 +593,9 @@ func seqAxioms(s Sort) []string {
 		// cat
 		fmt.Sprintf("(forall ((s %s) (t %s)) (! (= (len_%s (cat_%s s t)) (+ (len_%s s) (len_%s t))) :pattern ((cat_%s s t))))", S, S, n, n, n, n, n),
 		fmt.Sprintf("(forall ((s %s) (t %s) (i Int)) (! (=> (and (<= 0 i) (< i (+ (len_%s s) (len_%s t)))) (= (at_%s (cat_%s s t) i) (ite (< i (len_%s s)) (at_%s s i) (at_%s t (- i (len_%s s)))))) :pattern ((at_%s (cat_%s s t) i))))", S, S, n, n, n, n, n, n, n, n, n, n),
+		fmt.Sprintf("(forall ((s %s)) (! (and (= (cat_%s empty_%s s) s) (= (cat_%s s empty_%s) s)) :pattern ((cat_%s empty_%s s)) :pattern ((cat_%s s empty_%s))))", S, n, n, n, n, n, n, n, n),
+		fmt.Sprintf("(forall ((s %s) (a Int) (b Int) (c Int)) (! (=> (and (<= 0 a) (<= a b) (<= b c) (<= c (len_%s s))) (= (cat_%s (sub_%s s a b) (sub_%s s b c)) (sub_%s s a c))) :pattern ((cat_%s (sub_%s s a b) (sub_%s s b c)))))", S, n, n, n, n, n, n, n, n),
+		fmt.Sprintf("(forall ((s %s) (a Int)) (! (=> (and (<= 0 a) (<= a (len_%s s))) (= (sub_%s s a a) empty_%s)) :pattern ((sub_%s s a a))))", S, n, n, n, n),
 		// app1
 		fmt.Sprintf("(forall ((s %s) (x %s)) (! (= (len_%s (app1_%s s x)) (+ (len_%s s) 1)) :pattern ((app1_%s s x))))", S, elemSort(s), n, n, n, n),
 	}
@@ -796,9 +799,17 @@ func (c *FnCtx) zeroVal(t types.Type) *Val {
 	case s == SStr:
 		c.declSeq(SStr)
 		v.T = "empty_Str"
+		if t != nil {
+			if at, ok := t.Underlying().(*types.Array); ok && at.Len() > 0 {
+				v.T = c.zeroArray(s, at)
+			}
+		}
 	case isSeq(s):
 		c.declSeq(s)
 		v.T = "empty_" + sortName(s)
+		if at, ok := t.Underlying().(*types.Array); ok && at.Len() > 0 {
+			v.T = c.zeroArray(s, at)
+		}
 	case s == SNone:
 		v.Fields = map[string]*Val{}
 		if stt, _ := structOf(t); stt != nil {
@@ -827,6 +838,18 @@ func (c *FnCtx) zeroVal(t types.Type) *Val {
 		v.T = c.fresh("zero", s)
 	}
 	return v
+}
+
+// zeroArray: the zero value of a Go array [N]T is a sequence of length N whose elements are zero.
+func (c *FnCtx) zeroArray(s Sort, at *types.Array) string {
+	n := sortName(s)
+	z := c.fresh("zeroarr_"+n, s)
+	c.addFact(tEq(tApp("len_"+n, z), tInt(at.Len())))
+	ez := c.zeroVal(at.Elem())
+	if ez.S != SNone && ez.T != "" {
+		c.addFact(fmt.Sprintf("(forall ((k Int)) (! (= (at_%s %s k) %s) :pattern ((at_%s %s k))))", n, z, ez.T, n, z))
+	}
+	return z
 }
 
 func fpDims(s Sort) string {
